@@ -29,7 +29,7 @@ META = {
 
 def shards(tier):
     if tier == "quick":
-        return [{"label": "cubes%d" % i, "n": 160, "all": False} for i in range(14)]
+        return [{"label": "cubes%d" % i, "n": 400, "all": False} for i in range(14)]
     return [{"label": "cubes%d" % i, "n": 700, "all": True} for i in range(16)]
 
 
@@ -37,7 +37,7 @@ def cases(ctx):
     rng = ctx.rng
     for i in range(ctx.shard["n"]):
         c = gen.cube_case(rng, min_dims=1, max_dims=3, max_axes=2, max_extent=4, explicit_shape=False,
-                          allow_outside_common=True, n=gen.pick(rng, [1, 2, 3, 5, 8, 17, 40]))
+                          allow_outside_common=True, n=gen.pick(rng, [1, 2, 3, 5, 8, 17, 40, 64, 150]))
         c["shape"] = tuple(e + 1 for e in c["extents"])
         n = c["dense"][0].shape[0]
         c["n"] = n
